@@ -11,6 +11,9 @@ def subharnesses(tier):
     subs = []
     if tier == 'quick':
         worlds = [('T1', 1, 3, LIMITS[:2], AFFS[:2] + AFFS[3:]),
+                  ('T1', 1, 3, [{'cell': 2}, {'server': 1, 'cell': 2}],
+                   AFFS[:1]),
+                  ('T3', 1, 3, [{'pod': 1}], AFFS[:1]),
                   ('T2', 1, 3, LIMITS[:2], AFFS[:2]),
                   ('T3', 1, 3, [{'rack': 1, 'pod': 2}], AFFS[:1])]
     else:
